@@ -26,6 +26,7 @@ var _ telemetry.ProgramReport // the contracts below name the type
 //@ ghost fsops wide
 //@ ghost reportExists bool
 //@ ghost lockHeld bool
+//@ ghost lockLeft bool
 //@ ghost markerAbsent bool
 //@ ghost private bool
 //@ ghost contributed bool
@@ -63,7 +64,7 @@ func specUploader(u *uploader) bool {
 
 //@ contract Run
 //@   recovers-first
-//@   modifies heap, $fsops, $lockHeld, $markerAbsent, $reportExists, $contributed, $minsize, $nprog, $spanName, $spanOK, $spanExpiry, $collected, $dateOK, $age, $tooOld
+//@   modifies heap, $fsops, $lockHeld, $markerAbsent, $reportExists, $contributed, $minsize, $nprog, $spanName, $spanOK, $spanExpiry, $collected, $dateOK, $age, $tooOld, $lockLeft
 
 //@ contract newUploader
 //@   ensures result1 == nil ==> uploaderOK(result0) && fresh(result0)
@@ -89,7 +90,7 @@ func specUploader(u *uploader) bool {
 //@   ensures uploaderOK(u)
 //@   ensures $mode == "off" ==> $fsops == old($fsops)
 //@   loop 1: invariant uploaderOK(u) && (len(ready) > 0 ==> $mode == "on") && ($mode == "off" ==> $fsops == old($fsops))
-//@   modifies u.cache.m, entries(u.cache.m), maps(string, int64), $fsops, $reportExists, $lockHeld, $markerAbsent, $contributed, $minsize, $nprog, $spanName, $spanOK, $spanExpiry, $collected, $dateOK, $age, $tooOld
+//@   modifies u.cache.m, entries(u.cache.m), maps(string, int64), $fsops, $reportExists, $lockHeld, $markerAbsent, $contributed, $minsize, $nprog, $spanName, $spanOK, $spanExpiry, $collected, $dateOK, $age, $tooOld, $lockLeft
 
 // findWork only reads: nothing is created, changed or removed (it may create
 // the upload directory itself). A report name is put on the ready list only in
@@ -318,7 +319,7 @@ func specUploader(u *uploader) bool {
 //@   at call FindStringSubmatch#1: assert arg1 == fname
 //@   at call ReadFile#1: assert arg0 == fname && (match == nil || len(match) < 2 || !(match[1] > today))
 //@   at call uploadReportContents#1: assert arg1 == fname && issub(arg2, buf, 0, len(buf)) && (match == nil || len(match) < 2 || !(match[1] > today))
-//@   modifies $fsops, $lockHeld, $markerAbsent, $minsize
+//@   modifies $fsops, $lockHeld, $markerAbsent, $minsize, $lockLeft
 
 // uploadReportContents: lock before POST, marker re-checked under the lock,
 // disposal of the report exactly as the status dictates.
@@ -334,4 +335,12 @@ func specUploader(u *uploader) bool {
 //@   at call WriteFile#1: assert $lockHeld && $markerAbsent && resp.StatusCode == 200 && issub(arg1, buf, 0, len(buf))
 //@   at call Remove#4: assert $lockHeld && resp.StatusCode == 200
 //@   ensures result ==> $lockHeld && $markerAbsent
-//@   modifies $fsops, $lockHeld, $markerAbsent, $minsize
+// The lock is released on every way out once it was acquired (whatever the server
+// answered, and also when it did not answer): a lock left behind would stop every
+// later run at "Failed to acquire lock" and the week would never be delivered.
+//@   at call Base#1: ghost $lockLeft = false
+//@   at call OpenFile#1: after ghost $lockLeft = result1 == nil
+//@   at call Remove#1: assert arg0 == newname + ".lock"
+//@   at call Remove#1: ghost $lockLeft = false
+//@   ensures !$lockLeft
+//@   modifies $fsops, $lockHeld, $markerAbsent, $minsize, $lockLeft
